@@ -41,7 +41,10 @@ LEVEL_TEXT = ("Lean theorems, all by induction over operation histories of any l
 LEVEL_NOTE = ("Trusted: Lean kernel; harness/oracle/driver; the hand-written model of seqbag.go/align.go is validated against the "
               "implementation on generated histories only; regexp (CleanNames is modelled directly; for RenameRegexp the harness "
               "evaluates Go's regexp on every name before the call and hands the values to the model in the step's status), fmt, "
-              "sort.SliceStable, math/rand (replica) are external.")
+              "sort.SliceStable, math/rand (replica) are external. Command line `rename -e`, `replace -e`, `subset -e`: the expectations use a hand-written "
+              "model of a small, delimited subset of Go's regexp (lean/Gv/Model/Regex.lean: literals, `.`, `\\d`, classes, greedy `* + ?`, `^` / `$`, one "
+              "capture group; ReplaceAllString with `$1` / `${1}` / `$0` templates, MatchString) which every run validates against the real package on "
+              "generated (pattern, template, input) triples (harness op `regexsub`); a pattern outside the subset leaves the case undecided.")
 TECHNIQUE = "Lean 4 proof (refinement of the Go-shaped container to a plain-list reference model for all 36 operations, representation / rectangularity / distinct-names invariants, all by induction over histories) + differential correspondence"
 RULE = ("random histories of 1..12 (quick) / 1..40 (thorough) operations over alignments (0..5 rows x 0..8 columns) and "
         "sequence sets with ragged lengths, duplicate names, special characters in names, all three duplicate-name policies, "
@@ -488,6 +491,8 @@ def _rows_unequal(impl, k):
 def matches(c):
     if c.op.startswith("det"):
         return (c.impl or "").startswith("same")
+    if c.op == "regexsub" and c.model == "unmodelled":
+        return True       # a pattern outside the modelled subset of Go's regexp: nothing is claimed, no expectation uses it
     """model = implementation, compared up to (and including) the step at which the property is already
     violated: what the code does with a ragged 'alignment' afterwards (index panics...) is not modelled"""
     if c.model == c.impl:
@@ -503,12 +508,20 @@ MULTI_CMDS = [['sort'], ['addid', '-n', 'x_'], ['rename', '-e', 's', '-b', 't'],
               ['subset', 'ref', 's1'], ['subset', '--indices', '0', '1'], ['subset', '-r', 's1'], ['clean', 'seqs', '-c', '0.5']]
 
 
+def gen_regexsub(rng, count):
+    from driver import cligen
+    return cligen.regex_cases(rng, count)
+
+
 def gen(rng, tier):
     from driver import multigen
     for c in _gen_core(rng, tier):
         yield c
     from driver import cligen
-    for c in cligen.cases(rng, ['sort', 'addid', 'trim', 'rename', 'replace', 'concat', 'subset'], 40 if tier == "quick" else 400):
+    for c in cligen.cases(rng, ['sort', 'sort-more', 'addid', 'trim', 'rename', 'replace', 'replace-file', 'concat', 'subset'], 40 if tier == "quick" else 400):
+        yield c
+    # Go's regexp against the hand-written model of the subset that the `-e` expectations use
+    for c in gen_regexsub(rng, 400 if tier == "quick" else 6000):
         yield c
     for _ in range(2 if tier == "quick" else 20):
         for argv in MULTI_CMDS:
